@@ -11,7 +11,7 @@ import (
 func init() {
 	register(&Prop{
 		ID:         "C14",
-		Decided:    "(1) evaluation order relative to WHERE in the function both API paths share: with a WHERE free of analytic calls the predicate is evaluated first and a rejected row never reaches the analytic engine (state not advanced); with analytic calls in WHERE the engine runs before the predicate; (2) the partition key encoder is typed and length-prefixed (uniquely decodable, NULL distinct), and the PARTITION BY value is resolved by exact name, then as a path, the bare-suffix heuristic only as a fallback; (3) WHEN gating: on the false edge of the WHEN predicate no state is looked up or advanced; (4) LRU eviction is reachable only when the number of live partitions exceeds the cap, and it removes the oldest entry together with its last result; (5) every AnalyticState implementation: NewState returns a new object sharing no reference-typed state with the prototype, Apply writes only its receiver; (6) partitions/lru/lastResults/noPart/wrapperParsed are accessed only under fe.mu. Also: analytic placeholder columns are written only into a map created by the writing function (never into a row other fields of the same event read). Also: in every analytic state machine's Apply, with all optional arguments present, every path to a return evaluates each boolean condition argument (acc_xxx start/reset, ignoreNull) or leaves through the branch on which an earlier condition argument held (flow/condition-args-every-row): a NULL main value cannot skip a start/reset.",
+		Decided:    "(1) evaluation order relative to WHERE in the function both API paths share: with a WHERE free of analytic calls the predicate is evaluated first and a rejected row never reaches the analytic engine (state not advanced); with analytic calls in WHERE the engine runs before the predicate; (2) the partition key encoder is typed and length-prefixed (uniquely decodable, NULL distinct), and the PARTITION BY value is resolved by exact name, then as a path, the bare-suffix heuristic only as a fallback; (3) WHEN gating: on the false edge of the WHEN predicate no state is looked up or advanced; (4) LRU eviction is reachable only when the number of live partitions exceeds the cap, and it removes the oldest entry together with its last result; (5) every AnalyticState implementation: NewState returns a new object sharing no reference-typed state with the prototype, Apply writes only its receiver; (6) partitions/lru/lastResults/noPart/wrapperParsed are accessed only under fe.mu. Also: analytic placeholder columns are written only into a map created by the writing function (never into a row other fields of the same event read). Also: in every analytic state machine's Apply, with all optional arguments present, every path to a return evaluates each boolean condition argument (acc_xxx start/reset, ignoreNull) or leaves through the branch on which an earlier condition argument held (flow/condition-args-every-row): a NULL main value cannot skip a start/reset. Also: the loop that applies the analytic calls of a wrapper field to a row has no exit other than the exhausted call list (flow/all-calls-applied): a NULL result of one call cannot keep later calls from seeing the row.",
 		NotDecided: "each function's definition (offsets, defaults, NULL skipping, start/reset arguments), wrapper-expression values, behaviour above the partition cap beyond 'the oldest goes'.",
 		Run:        runC14,
 	})
@@ -253,6 +253,7 @@ func runC14(a *A) {
 	a.Rule("locks/guarded-by", 5, func() { a.lockRules("stream", "analyticFieldEngine") })
 	a.Rule("ownmap/placeholder-private", 1, func() { a.rulePlaceholderPrivate() })
 	a.Rule("flow/condition-args-every-row", 5, func() { a.ruleConditionArgsEveryRow() })
+	a.Rule("flow/all-calls-applied", 1, func() { a.ruleAllCallsApplied() })
 }
 
 // rulePlaceholderPrivate: the placeholder columns through which an analytic call's value is handed to
@@ -291,28 +292,57 @@ func (a *A) rulePlaceholderPrivate() int {
 			construct := fname(fn) + "#placeholder-target"
 			private := true
 			var other string
-			for _, l := range phiLeaves(mu.Map) {
-				if _, ok := l.(*ssa.MakeMap); ok {
-					continue
-				}
-				// a module helper all of whose returns are maps it made itself (copyRow-style)
-				if c, ok := l.(*ssa.Call); ok {
-					allFresh, any := true, false
-					a.calleeReturns(c, 0, func(rv ssa.Value, _ *ssa.Function) {
-						any = true
-						for _, rl := range phiLeaves(rv) {
-							if _, ok := rl.(*ssa.MakeMap); !ok {
-								allFresh = false
-							}
-						}
-					}, func(string) { allFresh = false })
-					if any && allFresh {
+			var judge func(v ssa.Value, d int)
+			judge = func(v ssa.Value, d int) {
+				for _, l := range phiLeaves(v) {
+					if _, ok := l.(*ssa.MakeMap); ok {
 						continue
 					}
+					// a module helper all of whose returns are maps it made itself (copyRow-style)
+					if c, ok := l.(*ssa.Call); ok {
+						allFresh, any := true, false
+						a.calleeReturns(c, 0, func(rv ssa.Value, _ *ssa.Function) {
+							any = true
+							for _, rl := range phiLeaves(rv) {
+								if _, ok := rl.(*ssa.MakeMap); !ok {
+									allFresh = false
+								}
+							}
+						}, func(string) { allFresh = false })
+						if any && allFresh {
+							continue
+						}
+					}
+					// a parameter: the map every caller passes (a helper that fills the caller's private copy)
+					if prm, ok := l.(*ssa.Parameter); ok && d < 2 {
+						f := prm.Parent()
+						idx := -1
+						for i, q := range f.Params {
+							if q == prm {
+								idx = i
+							}
+						}
+						if node := a.CG().Nodes[f]; node != nil && len(node.In) > 0 && idx >= 0 {
+							for _, e := range node.In {
+								cc := e.Site.Common()
+								args := cc.Args
+								if cc.IsInvoke() {
+									args = append([]ssa.Value{cc.Value}, args...)
+								}
+								if idx < len(args) {
+									judge(args[idx], d+1)
+								} else {
+									private = false
+								}
+							}
+							continue
+						}
+					}
+					private = false
+					other = TermOf(l, nil).String()
 				}
-				private = false
-				other = TermOf(l, nil).String()
 			}
+			judge(mu.Map, 0)
 			a.Check(private, construct, mu.Pos(),
 				"placeholder columns are written into a map created in this function",
 				"a placeholder column is written into "+other+", a map this function did not create: other fields evaluated for the same event (whole-row calls with a * argument, WHERE) see it as a column of the row")
@@ -478,6 +508,79 @@ func (a *A) ruleConditionArgsEveryRow() int {
 				"the condition argument is evaluated on every path to a return (all optional arguments present), or an earlier condition argument held",
 				fmt.Sprintf("a return is reachable without evaluating the condition argument args[%d]: a row that takes this path (for example a NULL main value) does not start/reset/apply its flag", k))
 		}
+	}
+	return n
+}
+
+// ruleAllCallsApplied: a wrapper field (lag(v) + acc_sum(v), acc_max(a) - acc_min(b)) holds several
+// analytic calls, each with its own per-partition state, and every one of them sees every row of its
+// partition. The loop that applies the calls of a field to a row runs to the end of the call list: it
+// has no exit other than the exhausted range (no return, break or goto out of it), so a NULL result of
+// one call cannot keep the calls after it from advancing their state.
+func (a *A) ruleAllCallsApplied() int {
+	apply := a.Method("stream", "analyticFieldEngine", "applyCall")
+	n := 0
+	for _, fn := range a.ModFuncs {
+		if fn.Pkg != a.Pkg("stream") || fn.Blocks == nil {
+			continue
+		}
+		for _, l := range rangeLoops(fn) {
+			has := false
+			for b := range l.Blocks {
+				for _, in := range b.Instrs {
+					if c, ok := in.(*ssa.Call); ok && c.Call.StaticCallee() == apply {
+						has = true
+					}
+				}
+			}
+			if !has {
+				continue
+			}
+			n++
+			// the natural loop: blocks reachable from the body (not through the header) that get back to
+			// the header; an edge from one of them to a block outside is an early exit
+			reachesHeader := func(from *ssa.BasicBlock) bool {
+				seen := map[*ssa.BasicBlock]bool{}
+				st := []*ssa.BasicBlock{from}
+				for len(st) > 0 {
+					x := st[len(st)-1]
+					st = st[:len(st)-1]
+					if x == l.Header {
+						return true
+					}
+					if seen[x] {
+						continue
+					}
+					seen[x] = true
+					st = append(st, x.Succs...)
+				}
+				return false
+			}
+			inLoop := map[*ssa.BasicBlock]bool{}
+			for b := range l.Blocks {
+				if reachesHeader(b) {
+					inLoop[b] = true
+				}
+			}
+			var bad ssa.Instruction
+			for b := range inLoop {
+				for _, s := range b.Succs {
+					if s != l.Header && !inLoop[s] {
+						bad = b.Instrs[len(b.Instrs)-1]
+					}
+				}
+			}
+			pos := l.Header.Instrs[0].Pos()
+			if bad != nil {
+				pos = bad.Pos()
+			}
+			a.Check(bad == nil, fname(fn)+"#all-calls-applied", pos,
+				"the loop that applies a field's analytic calls to the row leaves only when the call list is exhausted",
+				"the loop that applies a field's analytic calls to the row can be left early ("+a.pos(pos)+"): the calls after that point do not see the row, and their per-partition state (acc_sum, lag history, …) silently skips it")
+		}
+	}
+	if n == 0 {
+		a.anchorFail("no loop applying analyticFieldEngine.applyCall found")
 	}
 	return n
 }
